@@ -35,7 +35,8 @@ Inductive loc :=
 | DIdle | DEmit (v : val)
 | MWait
 | Junk (r : role) (v : val)
-| End (r : role).
+| End (r : role)
+| SrcStalled (rest : list (nat * bool)).   (* the input of the request generator stalls for ever *)
 
 Global Instance val_eq_dec : EqDecision val.
 Proof. solve_decision. Defined.
@@ -61,7 +62,10 @@ Notation K l := (fun _ : resp val => l).
 
 Definition beh (l : loc) : pend val loc nat ev :=
   match l with
-  | Src ((id, bad) :: r) => PSel [(GSend c_req (VReq id bad), K (Src r)); (GDone, K SrcClose)]
+  (* on ctx.Done writeRequest just returns: the generator drops the request and goes on with its input;
+     the input itself (a file, a pipe, stdin) may stall for ever at any point *)
+  | Src ((id, bad) :: r) => PSel [(GSend c_req (VReq id bad), K (Src r)); (GDone, K (Src r));
+                                  (GDefault, K (SrcStalled ((id, bad) :: r)))]
   | Src [] => PClose c_req (End RSrc)
   | SrcClose => PClose c_req (End RSrc)
   (* GenericEngine.worker; wg.Done is deferred = the goroutine has ended *)
@@ -94,11 +98,12 @@ Definition beh (l : loc) : pend val loc nat ev :=
   | MWait => PWait [p_logger; p_drain] (End RCaller)
   | Junk _ _ => PSel []
   | End _ => PEnd
+  | SrcStalled _ => PSel []
   end.
 
 Definition role_of (l : loc) : role :=
   match l with
-  | Src _ | SrcClose => RSrc
+  | Src _ | SrcClose | SrcStalled _ => RSrc
   | WIdle i | WErr i _ | WScan i _ | WPut i _ => RWorker i
   | SWait | SCloseErr | SCloseDone => RSup
   | CIdle | CSend _ | CClose => RCopier
@@ -133,7 +138,7 @@ Definition tok_ev (e : ev) : gmultiset nat :=
 Definition ids_of (reqs : list (nat * bool)) : gmultiset nat := list_to_set_disj (fst <$> reqs).
 Definition weight (l : loc) : gmultiset nat :=
   match l with
-  | Src rest => ids_of rest
+  | Src rest | SrcStalled rest => ids_of rest
   | WErr _ id | WScan _ id | WPut _ id => {[+ id +]}
   | CSend v | LWrite v | DEmit v | Junk _ v => tok_val v
   | _ => ∅
@@ -148,7 +153,7 @@ Definition owed_ev (e : ev) : gmultiset nat :=
   match e with EScan id => {[+ id +]} | EPrint v | EErrLog v => owed_val v | ENeg _ => ∅ end.
 Definition owed (l : loc) : gmultiset nat :=
   match l with
-  | Src rest => good_ids rest
+  | Src rest | SrcStalled rest => good_ids rest
   | WScan _ id => {[+ id +]}
   | CSend v | LWrite v | DEmit v | Junk _ v => owed_val v
   | _ => ∅
